@@ -73,6 +73,46 @@ func (h *hist) find(rel bool, id byte) *tube {
 	return nil
 }
 
+// reservation closes a reliable tube with an identifier of the muxer's parity and, while the
+// reaper still keeps it in the map, lets stragglers of the old tube arrive (data, a REQ
+// retransmission, a FIN), creates a tube (which must get another identifier) and polls Accept;
+// then waits for the reaper.  Few operations: they must fit into half the reservation time.
+func (h *hist) reservation(t *tube) {
+	g := h.g
+	g.Op("shut r %d", t.id)
+	for i := 0; i < 1+g.R.Intn(3); i++ {
+		switch g.R.Intn(5) {
+		case 0:
+			h.raw(muxh.Frame(t.id, "L", 1, t.next, g.R.Bytes(1+g.R.Intn(4))))
+		case 1:
+			h.raw(muxh.Frame(t.id, "L", 1, 1, g.R.Bytes(1+g.R.Intn(4))))
+		case 2:
+			h.raw(muxh.Init(t.id, "QLA", byte(1+g.R.Intn(7))))
+		case 3:
+			h.raw(muxh.Frame(t.id, "LF", 0, t.next, nil))
+		case 4:
+			g.Op("create r %d", 1+g.R.Intn(7))
+			// bookkeeping as in createLocal: the reserved identifier is still taken
+			for c := h.parity; c < 256; c += 2 {
+				if h.find(true, byte(c)) == nil {
+					h.live = append(h.live, &tube{rel: true, id: byte(c), ty: 1, local: true, held: true, next: 1})
+					break
+				}
+			}
+		}
+	}
+	g.Op("accept")
+	if len(h.queue) > 0 {
+		h.queue[0].held = true
+		h.queue = h.queue[1:]
+	}
+	g.Op("has r %d", t.id)
+	g.Op("read r %d 8", t.id)
+	g.Op("reap r %d", t.id)
+	h.remove(t)
+	g.Op("has r %d", t.id)
+}
+
 func (h *hist) reqFlags(rel bool) string {
 	if rel {
 		return "QLA"
@@ -213,6 +253,9 @@ func genHistory(g *GenCtx) {
 			h.raw(muxh.Frame(t.id, "LF", 0, t.next, nil)) // peer closes its direction
 			t.next++
 			t.fin = true
+		case x < 19 && t != nil && reaps < 4 && t.rel && int(t.id)%2 == h.parity && t.held && t.inited && g.R.Chance(1, 2):
+			reaps++
+			h.reservation(t)
 		case x < 19 && t != nil && reaps < 4:
 			g.Op("read %s %d 64", letter(t.rel), t.id)
 			g.Op("reap %s %d", letter(t.rel), t.id)
@@ -297,6 +340,27 @@ func genC09(g *GenCtx) {
 		g.Op("create r 4")
 		g.Op("has r %d", p)
 		g.Op("has r %d", p+2)
+	}
+	// fixed: stragglers during the reservation (the theorem C09_late_in_reservation's witness)
+	for p := 0; p < 2; p++ {
+		g.Op("new %d", p)
+		g.Op("create r 7")
+		g.Op("raw %s", HexOrDash(muxh.Init(byte(p), "PLA", 7)))
+		g.Op("raw %s", HexOrDash(muxh.Frame(byte(p), "L", 1, 1, []byte("A"))))
+		g.Op("read r %d 8", p)
+		g.Op("shut r %d", p)
+		g.Op("raw %s", HexOrDash(muxh.Frame(byte(p), "L", 1, 1, []byte("A"))))
+		g.Op("raw %s", HexOrDash(muxh.Frame(byte(p), "L", 1, 2, []byte("B"))))
+		g.Op("raw %s", HexOrDash(muxh.Init(byte(p), "QLA", 7)))
+		g.Op("accept")
+		g.Op("create r 7")
+		g.Op("has r %d", p)
+		g.Op("read r %d 8", p)
+		g.Op("reap r %d", p)
+		g.Op("has r %d", p)
+		g.Op("create r 7")
+		g.Op("shut r %d", p+1) // not this muxer's parity / no such tube
+		g.Op("shut u %d", p)
 	}
 	nh, nc := 260, 40
 	if g.Thorough() {
